@@ -37,6 +37,7 @@ def declare(ctx):
 def check(ctx, F):
     _FN["F"] = F
     check_flow(ctx, F)
+    check_pin_owner(ctx, F)
     check_ctor(ctx, F)
     check_layout(ctx, F)
     sub = _NameKind(ctx)
@@ -82,6 +83,35 @@ class _NameKind:
     def violation(self, rule, key, where, msg, detail=None):
         if "With" in key:
             self.ctx.violation("C14.name-kind", key, where, msg, detail)
+
+
+def check_pin_owner(ctx, F):
+    """`lastTransitionTo(s)` finds the request that activated s through transitionTargets[s], pinned while requests are applied.  A later request
+    of the same step is forwarded into every marked prong of a common orthogonal ancestor and re-pins the (still inactive) states an earlier
+    request is about to activate - unless the pin keeps its first owner.  Necessary condition decided here: the pin store is dominated by a
+    test that the slot is still unpinned (== INVALID)."""
+    for fid, b in insts(F, "ControlT", {"pinLastTransition"}):
+        site = "ControlT::pinLastTransition"
+        bad = False
+        n = 0
+        for p in sym_paths(F, fid, 1):
+            conds = []
+            for ev in p:
+                if ev[0] == "assume":
+                    conds.append((ev[2], bool(ev[3])))
+                elif ev[0] == "write" and "transitionTargets" in ev[2]:
+                    n += 1
+                    fresh = any(("transitionTargets" in c and re.search(r"==#(65535|255)\)?$", c) and t) or
+                                ("transitionTargets" in c and re.search(r"!=#(65535|255)\)?$", c) and not t) for c, t in conds)
+                    if not fresh:
+                        bad = True
+        if n:
+            ctx.instance("C14.flow", site + "/owner", {"function": site, "loc": F.floc(fid)})
+            if bad:
+                ctx.violation("C14.flow", site + "/overwrite", "%s (%s)" % (site, F.floc(fid)),
+                              "the pin of an inactive state is overwritten by every later request of the step that is forwarded through it: after two payload "
+                              "requests into different sub-regions of one orthogonal region, lastTransitionTo() of the first request's target yields the second "
+                              "request's transition and payload", {})
 
 
 def check_flow(ctx, F):
